@@ -190,6 +190,7 @@ fn strategy() -> BoxedStrategy<C02Case> {
 		throttle_change: None,
 		empty_errs: false,
 		throttle_via_field: false,
+		job_churn: None,
 	};
 	let t_big = prop_oneof![Just(100u32), Just(160), Just(240), Just(300)];
 	prop_oneof![
@@ -240,6 +241,13 @@ fn strategy() -> BoxedStrategy<C02Case> {
 			sc.throttle_change = Some((30 + at, b2));
 			sc.throttle_via_field = field;
 			C02Case { pattern: "throttle-raised-then-silence".into(), sc }
+		}),
+		// supervised jobs (created by the handler in its first invocation) end one after the other while batches
+		// are under construction: a job task that ends is no event and must not move the window
+		2 => (t_big.clone(), 15u16..60, 20u8..40).prop_map(move |(t, period, count)| {
+			let mut sc = base(t, vec![pass(5), pass(t as u16 + 100), pass(t as u16 / 3), pass(t as u16 + 150), pass(20)]);
+			sc.job_churn = Some((period, count));
+			C02Case { pattern: "job-churn-in-window".into(), sc }
 		}),
 		// throttle changed while idle, then a burst
 		1 => prop_oneof![Just((20u32, 300u32)), Just((300, 20))].prop_map(move |(a, b2)| {
